@@ -14,7 +14,7 @@ import (
 func init() {
 	Register(&Prop{
 		ID:   "C17",
-		Expl: "Decides the table/constant structure behind the negotiation timeouts. A negotiation waiting state is a waiting state (its action may return NoOp) that accepts an event injected with an agreement message as context (requester) or an event of the payment callback that leads to the broadcast state (swap-out responder). (R1) each such state accepts Event_OnTimeout and that edge leads to the cancel-sending action and then to a terminal state; (R2) on every table path from the default state into it an action arms a timeout, all armed durations constant-fold to 10 minutes and the fee invoice expiry to 600 s; (R3) after a restart (timers are memory only) the state is FailOnrecover and accepts Event_ActionFailed, or its own action re-arms the timer; (R4) every other state that accepts Event_OnTimeout is neither reachable after a successful claim payment nor after the opening broadcast.",
+		Expl: "Decides the table/constant structure behind the negotiation timeouts. A negotiation waiting state is a waiting state (its action may return NoOp) that accepts an event injected with an agreement message as context (requester) or an event of the payment callback that leads to the broadcast state (swap-out responder). (R1) each such state accepts Event_OnTimeout and that edge leads to the cancel-sending action and then to a terminal state; (R2) on every table path from the default state into it an action arms a timeout, all armed durations constant-fold to 10 minutes and the fee invoice expiry to 600 s; (R3) after a restart (timers are memory only) the state is FailOnrecover and accepts Event_ActionFailed, or its own action re-arms the timer; (R4) every other state that accepts Event_OnTimeout is neither reachable after a successful claim payment nor after the opening broadcast; (R5) the function the timeout service runs when a timer fires (found through the service implementation's factory field) reaches SendEvent(Event_OnTimeout) on every path on which the swap was found; a skip that depends on the current state (also inside a helper) is evaluated for every state that accepts Event_OnTimeout and can be reached from an arming state, and must let each of them through.",
 		NotD: "Timer accuracy; that the Lightning node reports an expired invoice (the CLN notifier ignores 'expired'; with R1 the timer covers it).",
 		Run:  runC17,
 	})
@@ -25,6 +25,7 @@ func runC17(c *an.Check) {
 	c.Rule("C17.R2", "a 10-minute timeout is armed on every path into a negotiation waiting state; fee invoice expiry is 600 s")
 	c.Rule("C17.R3", "a negotiation waiting state survives restart: FailOnrecover with an ActionFailed edge, or re-arms")
 	c.Rule("C17.R4", "Event_OnTimeout is accepted only before payment / broadcast")
+	c.Rule("C17.R5", "the timeout callback delivers Event_OnTimeout to every armed state that accepts it")
 	if !needEffects(c, fxAddTimeout, fxGetPayreq, fxOpenTx, fxPay) {
 		return
 	}
@@ -161,6 +162,33 @@ func runC17(c *an.Check) {
 		}
 	}
 	c.AtLeast("C17.R1", "negotiation waiting states", nNeg, 3)
+
+	// R5: the timer's callback delivers the event
+	{
+		roots := c16TimeoutCallbacks(c, srcs)
+		armedReach := map[*TI]map[string]bool{}
+		for _, t := range ts {
+			var arming []string
+			for _, x := range t.T.Order {
+				if t.Sum[x].HasEffect(fxAddTimeout) {
+					arming = append(arming, x)
+				}
+			}
+			armedReach[t] = map[string]bool{}
+			if len(arming) > 0 {
+				armedReach[t] = t.T.Reach(arming...)
+				for _, x := range arming {
+					armedReach[t][x] = true
+				}
+			}
+		}
+		filter := func(t *TI, s string) bool { return armedReach[t][s] }
+		for _, root := range roots {
+			d := c16AnalyseDelivery(c, ts, root, nil, filter, map[*ssa.Function]bool{})
+			c16ReportDelivery(c, "C17.R5", root, d)
+		}
+		c.AtLeast("C17.R5", "timeout callbacks", len(roots), 1)
+	}
 
 	// R2 constants. A duration / expiry that is a parameter of an arming helper is
 	// resolved at the helper's callers; one instance per arming chain.
